@@ -39,6 +39,8 @@
      the two checks that depend on the random graph (`addedges` beyond the missing edges, `splitedges` beyond the edges:
      ValueError raised inside the callee) are not part of argument validation;
    * memory: a graph with more vertices than the machine can hold (MemoryError / OverflowError) is outside the model;
+   * of the callees only what obtain_graph can observe without the graph: split_random_edges raises TypeError on a graph
+     that is not simple (reachable only from a dictionary the parser does not produce: gs_wf excludes it);
    * the key 'graphtype' of the parsed dictionary is always present (it is a record field);
    * error messages: one tag per `raise ValueError(...)` statement. *)
 From Coq Require Import ZArith List Bool Ascii String.
@@ -720,7 +722,11 @@ Definition gs_obtain_graph (fo : Z * Z) (p : gs_parsed) : gs_pr (list gs_step) :
   add <- gs_opt_step (gs_lookup (lit "addedges") (p_opts p))
            (fun v => k <- gs_one_nonneg_opt VAddEdges v ;; GSRet (SAddEdges k)) ;;
   split <- gs_opt_step (gs_lookup (lit "splitedges") (p_opts p))
-           (fun v => k <- gs_one_nonneg_opt VSplitEdges v ;; GSRet (SSplitEdges k)) ;;
+           (fun v => k <- gs_one_nonneg_opt VSplitEdges v ;;
+                     match g with
+                     | GSSimple => GSRet (SSplitEdges k)
+                     | _ => GSRaise (GXOther KType)       (* split_random_edges: "only implemented for simple graphs" *)
+                     end) ;;
   save <- gs_opt_step (gs_lookup gs_save (p_opts p))
            (fun v => x <- gs_unpack2 v ;; gs_save_format g (fst x) (snd x)) ;;
   GSRet (SGen call :: plant ++ add ++ split ++ save).
@@ -738,7 +744,8 @@ Definition gs_wf (p : gs_parsed) : bool :=
   match p_construction p with
   | Some c => gs_mem c (gs_constructions (p_gtype p)) && p_argskey p && (match p_args p with Some _ => true | None => false end)
   | None => match p_filename p with Some _ => true | None => false end
-  end.
+  end
+  && forallb (fun kv => gs_mem (fst kv) (gs_options (p_gtype p))) (p_opts p).    (* only options of the graph type *)
 
 (* make_graph_from_spec *)
 Definition gs_make (fo : Z * Z) (g : gs_gtype) (spec : list text) : gs_vres + gs_pres :=
